@@ -1,5 +1,6 @@
 import MptModel.Impl.ParseConfig
 import MptModel.Spec.Render
+import MptModel.Spec.EventTree
 import Driver.Util
 /-!
   Model driver for the area "parse" (C08, C09); op grammar and output format: harness/drv_parse.c.
@@ -15,7 +16,8 @@ structure XP where
   kind : Kind := .pre
   opened : Bool := false
   rest : List UInt8 := []      -- unread part of the stream
-  lineZero : Bool := true      -- `_d.src.line == 0`: nothing read since open/reset
+  lineZero : Bool := false     -- `_d.src.line == 0`: nothing read since open/reset (a new object starts with line 1)
+  detached : Bool := false     -- the file was removed while the stream was open: the stream keeps the old content
   curr : Nat := 0              -- `_d.curr` stays in the object between reads (`valid` is reset by mpt_parse_config)
 
 structure State where
@@ -105,9 +107,9 @@ def internals (code : Int) (st : St) (src : Src) (inputLen : Nat) : String :=
 /-- outcomes the property allows for `mpt_parse_config`: success needs well nested events, every
     value handed out must be stored data; a source that reported a read error cannot give success -/
 def cfgAlts (eof : Int) (mayRefuse : Bool := false) : String :=
-  let errs := if mayRefuse then "err nest=- vals=ok refused=no ; * || err nest=- vals=ok refused=yes ; *"
-    else "err nest=- vals=ok refused=no ; *"
-  if eof == -2 then "ok nest=ok vals=ok refused=no ; * || " ++ errs else errs
+  let errs := if mayRefuse then "err nest=- vals=ok refused=no kept=ok ; * || err nest=- vals=ok refused=yes kept=ok ; *"
+    else "err nest=- vals=ok refused=no kept=ok ; *"
+  if eof == -2 then "ok nest=ok vals=ok refused=no kept=ok ; * || " ++ errs else errs
 
 /-- `stat` text of a parse through the character source of the driver -/
 def statOf (code : Int) (st : St) (src : Src) (inputLen : Nat) : String :=
@@ -176,6 +178,7 @@ def step (s : State) (w : List String) : State × String :=
   | "p" :: "config" :: rest =>
     let fa : Option (Option Nat) := match rest with
       | [] => some none
+      | ["keep"] => some none   -- the handler keeps shared references to the path buffers: no influence on the parse
       | [x] => if x.startsWith "fail=" then ((x.drop 5).toString.toNat?).map some else none
       | _ => none
     match fa with
@@ -184,7 +187,7 @@ def step (s : State) (w : List String) : State × String :=
       let (pf, t) := cfgOf s
       match Kind.ofType t with
       | none => ({ s with stat := "code=-3 line=1 getc=0 used=0" },
-          "R err nest=- vals=ok refused=no | C . | I code=-3 line=1 getc=0 used=0 curr=0 | S err nest=- vals=ok refused=no ; *")
+          "R err nest=- vals=ok refused=no kept=ok | C . | I code=-3 line=1 getc=0 used=0 curr=0 | S err nest=- vals=ok refused=no kept=ok ; *")
       | some k =>
         let cfg : Cfg := { fmt := pf, sect := s.sect, opt := s.opt, eof := s.eof }
         let r := parseConfig k cfg (record failAt) [] 0 s.input
@@ -196,7 +199,7 @@ def step (s : State) (w : List String) : State × String :=
           | some n => if r.code == -128 && r.ctx.length == n then "yes" else "no"
           | none => "no"
         ({ s with stat := statOf r.code r.st r.src s.input.length },
-          s!"R {verdict} nest={nest} vals=ok refused={refused} | C {fmtEvents evs} | I {internals r.code r.st r.src s.input.length} | S {cfgAlts s.eof failAt.isSome}")
+          s!"R {verdict} nest={nest} vals=ok refused={refused} kept=ok | C {fmtEvents evs} | I {internals r.code r.st r.src s.input.length} | S {cfgAlts s.eof failAt.isSome}")
   | ["p", "node"] =>
     let r := parseNode s.root s.fmt s.sect s.opt s.eof s.input
     let verdict := if r.code < 0 then "err" else "ok"
@@ -206,7 +209,15 @@ def step (s : State) (w : List String) : State × String :=
     let alts := match s.expect with
       | some f => s!"ok sound=ok names={nm} ; {fmtForest f}"
       | none =>
-        if s.eof == -2 then s!"ok sound=ok names={nm} ; * || err sound=ok names=- ; {fmtForest s.root}"
+        -- into an empty target: the tree the reported elements describe
+        let okTree := if s.root.isEmpty then
+            match Kind.ofType (parseFormat s.fmt).2 with
+            | some k =>
+              let cfg : Cfg := { fmt := (parseFormat s.fmt).1, sect := s.sect, opt := s.opt, eof := s.eof }
+              fmtForest (Events.toForest (events k cfg Flag.section_ s.input).2)
+            | none => "*"
+          else "*"
+        if s.eof == -2 then s!"ok sound=ok names={nm} ; {okTree} || err sound=ok names=- ; {fmtForest s.root}"
         else s!"err sound=ok names=- ; {fmtForest s.root}"
     let rc := repCount r.children
     ({ s with root := r.children, expect := none,
@@ -238,6 +249,18 @@ def step (s : State) (w : List String) : State × String :=
     let code : Int := if r.code < 0 then r.code else 1
     ({ s with stat := s!"code={code}" },
       s!"R {verdict} nest={nest} vals=ok | C {fmtEvents evs} | I code={code} | S ok nest=ok vals=ok ; * || err nest=- vals=ok ; *")
+  | ["p", "deep", n, form] =>
+    -- nesting of any depth is a valid text (`C09.roundtrip`); without its last `}` the text ends inside a section
+    match n.toNat?, form with
+    | some (_ + 1), "closed" => ({ s with stat := "-" }, "R ok | S ok ; *")
+    | some (_ + 1), "open" => ({ s with stat := "-" }, "R err | S err ; *")
+    | _, _ => (s, "bad-op")
+  | ["p", "oom", k] =>
+    -- the model has no allocation failure: whatever request is refused, the scratch target must stay clean and
+    -- nothing may leak
+    match k.toNat? with
+    | some (_ + 1) => ({ s with stat := "-" }, "R ok clean=yes leak=0 | S ok clean=yes leak=0 ; *")
+    | _ => (s, "bad-op")
   | ["p", "stat"] => (s, s!"R ok | C {s.stat}")
   | ["p", "end"] => (({} : State), "R ok leaks=0")
   /- mpt::config_parser -/
@@ -266,7 +289,7 @@ def step (s : State) (w : List String) : State × String :=
   | ["x", "file", h] =>
     match parseHex h with
     | some bs =>
-      let xp' := s.xp.map fun xp => if xp.opened && xp.lineZero then { xp with rest := bs } else xp
+      let xp' := s.xp.map fun xp => if xp.opened && xp.lineZero && !xp.detached then { xp with rest := bs } else xp
       ({ s with xfile := some bs, xexpect := none, xp := xp' }, s!"R ok len={bs.length}")
     | none => (s, "bad-op")
   | ["x", "render", style, decor, forest, h] =>
@@ -285,15 +308,18 @@ def step (s : State) (w : List String) : State × String :=
     | some xp =>
       match s.xfile with
       | none => (s, "R refused")
-      | some bs => ({ s with xp := some { xp with opened := true, rest := bs, lineZero := true } }, "R ok")
+      | some bs => ({ s with xp := some { xp with opened := true, rest := bs, lineZero := true, detached := false } }, "R ok")
   | ["x", "reset"] =>
     match s.xp with
     | none => (s, "bad-op")
     | some xp =>
       if xp.lineZero then (s, "R ok")
       else match xp.opened, s.xfile with
-        | true, some bs => ({ s with xp := some { xp with rest := bs, lineZero := true } }, "R ok")
+        | true, some bs => ({ s with xp := some { xp with rest := bs, lineZero := true, detached := false } }, "R ok")
+        -- the file is gone: the parser keeps the stream it has
         | _, _ => (s, "R refused")
+  | ["x", "unlink"] =>
+    ({ s with xfile := none, xexpect := none, xp := s.xp.map fun xp => { xp with detached := xp.opened } }, "R ok")
   | ["x", "root", f] =>
     match parseForest f with
     | some f => ({ s with xtarget := f }, s!"R ok | C {fmtForest f}")
